@@ -11,7 +11,8 @@ BOUNDS = ("the 3 program templates of C17/C18 (symbolic origin and operands) spl
           "and PCR operands of the templates crossing the file boundaries (quick: 8 seeded splits per program + fixed "
           "edge splits; thorough: every single split point and 40 seeded multi-splits per program); the including program "
           "and the spliced program are assembled in the same path and compared on addresses, sizes, bytes, symbol values, "
-          "origin and name.  Missing file and inclusion cycles must be diagnostics")
+          "origin and name.  Missing file and inclusion cycles must be diagnostics; END / ORG / SETDP / NAM / comment "
+          "lines placed so that they fall inside an included file")
 OUTSIDE = "include paths other than plain relative names; more than 3 included files"
 ASSUMPTIONS = ["M8: SourceFile.read_assembly_contents is served from an in-memory map (the real file system only in replays)"]
 
